@@ -81,3 +81,5 @@ def run(ctx):
                   'update(b\'\', padding=True) compresses an extra all-zero final block and differs from the one-shot digest',
                   ctx.where('crysp/blake.py', 'Blake2.iterblocks'))
     ctx.guard('Blake2 final', blake2_final)
+
+    dependencies(ctx, ['crysp/blake.py', 'crysp/md.py', 'crysp/nilsimsa.py', 'crysp/padding.py', 'crysp/sha.py'], 'C14')
